@@ -108,6 +108,13 @@ def pairs(tier):
         [ExprS(Inc('--', False, V('va'))), inc('vc'), If(V('va'), A(V('vb'), C(1)), A(V('vb'), C(2)))], funcs1=[F('f', None, [], Block([inc('vc')]))], extra=['vc'])
     add('rw/inplace/void_x', [ExprS(Inc('--', False, V('Y'))), ExprS(Call('f', [])), If(V('Y'), A(V('vb'), C(1)), A(V('vb'), C(2)))],
         [ExprS(Inc('--', False, V('Y'))), A(V('X'), C(0)), If(V('Y'), A(V('vb'), C(1)), A(V('vb'), C(2)))], funcs1=[F('f', None, [], Block([A(V('X'), C(0))]))])
+    # the same with the callee inline: a statement that sets the flags, the call, a zero test of the same value
+    for sn, s, z in families3.flag_setters():
+        if sn == 'va=f': continue
+        for bn, body in (('vc++', lambda: inc('vc')), ('X=0', lambda: A(V('X'), C(0))), ('vc=vd+1', lambda: A(V('vc'), B('+', V('vd'), C(1)))), ('if', lambda: If(V('vd'), inc('vc')))):
+            if bn == 'X=0' and z == 'X': continue
+            add('rw/inplace-inline/%s/%s' % (sn, bn), [s(), ExprS(Call('f', [])), If(V(z), A(V('sb'), C(1)), A(V('sb'), C(2)))], [s(), body(), If(V(z), A(V('sb'), C(1)), A(V('sb'), C(2)))],
+                funcs1=[F('f', None, [], Block([body()]), inline=True)], extra=['vc', 'vd'])
     add('rw/inplace/two', [A(V('vc'), Call('f', [V('va'), V('vb')]))], [A(V('vc'), B('-', V('va'), V('vb')))], funcs1=[F('f', 'u8', [('u8', 'x'), ('u8', 'y')], Block([ret(B('-', V('x'), V('y')))]))])
     add('rw/inplace/cond', [If(Call('f', [V('va')]), A(V('vb'), C(1)), A(V('vb'), C(2)))], [If(B('&', V('va'), C(1)), A(V('vb'), C(1)), A(V('vb'), C(2)))],
         funcs1=[F('f', 'u8', [('u8', 'x')], Block([ret(B('&', V('x'), C(1)))]))])
